@@ -3,22 +3,28 @@ PROP = dict(
     engines=["c25"],
     go_tags=["c25"],
     gen_files={"MM/Gen/C25.lean": "c25"},
+    extract_files={"MM/Gen/LockC25.lean": {"cmd": ["go", "run", "{VERIF}/tools/lockshape.go", "LockC25", "{REPO}/internal/shell/executor.go",
+                                             "Executor.AcquireSession,Executor.ReleaseSession,Executor.validateAndAcquire", "mu", "sessions"]}},
     lean_modules=["MM.Props.C25"],
     theorems=[
         "MM.C25.C25_start_implies",
+        "MM.C25.C25_runs_validated",
         "MM.C25.C25_reject_keeps_counter",
         "MM.C25.C25_empty_whitelist",
         "MM.C25.C25_class_exact",
         "MM.C25.C25_sessions_le_max",
+        "MM.C25.C25_counter_atomic",
     ],
     spec=True,
     rule="cases = configuration (enabled, whitelist empty / names / wildcard / non-base-name entries, bcrypt password or none, "
          "MaxSessions in {-1,0,1,2,3}) x requests (whitelisted names and near misses: path prefixes, case, blanks, NUL, backslash; "
          "arguments with each member of the regenerated metacharacter class at every position, every byte value, absolute paths, "
          "invalid UTF-8; right/wrong/empty passwords) run through validateAndAcquire (accessor), the real NewSession+Start and "
-         "NewPTYSession, ReleaseSession, plus concurrent acquire/release stress on a real Executor; non-trivial = request got past "
+         "NewPTYSession, ReleaseSession; argv / argvp ops read back exec.Cmd.Args of the session built by the real NewSession / NewPTYSession "
+         "(arguments padded with blanks, CR/LF, tabs, NUL, NBSP, quotes around absolute paths and metacharacters) and compare it with the "
+         "validated vector; plus concurrent acquire/release stress on a real Executor; non-trivial = request got past "
          "the enabled and password checks (whitelist / argument filter / counter actually consulted)",
-    nontrivial=lambda op, out: op.startswith("stress") or (op.split(" ")[0] in ("admit", "session", "pty") and not out.startswith(("err disabled", "err authreq", "err badcreds"))),
+    nontrivial=lambda op, out: op.startswith("stress") or (op.split(" ")[0] in ("admit", "session", "pty", "argv", "argvp") and not out.startswith(("err disabled", "err authreq", "err badcreds"))),
     trusted_base=[
         "bcrypt is an abstract predicate pwOK(hash, password) in the theorems; T-diff instantiates it with real bcrypt hashes on the Go side and equality on the model side",
         "regexp.MatchString on a single ASCII character class = 'some byte of the string is in the class' (facts stage refuses any other pattern shape)",
@@ -59,3 +65,13 @@ def extra(c):
                       {"engine": "c25", "origin": "props/C25.py extra", "ops": [ops[0], op], "impl_outputs": ["ok", out]}, True)
             return
     c.oblige("documented-metacharacters-rejected-by-real-code", "tie", True, "%d characters" % len(METACHARS))
+    # concurrent authenticated admissions: the limit must hold (gives the violation a concrete outcome when
+    # the atomic-step tie C25_counter_atomic is broken)
+    broken = any(not o["ok"] for o in c.obligations)
+    ops = ["reset 1 0 - 0"] + (["stressv 1 24", "stressv 2 24", "stressv 1 12"] if broken else ["stressv 1 12"])
+    outs = c.go_run("c25", ops, timeout=300)
+    for op, out in zip(ops[1:], outs[1:]):
+        if out != "stress ok":
+            c.violate("concurrent authenticated requests were admitted beyond max_sessions",
+                      {"engine": "c25", "origin": "props/C25.py extra", "ops": [ops[0], op], "impl_outputs": ["ok", out]}, True)
+            return
